@@ -64,7 +64,7 @@ pub fn random_text(t: &mut Tape, max: usize) -> String {
 
 fn validate_attr(t: &mut Tape) -> String {
     let msg = rust_str_lit(&random_text(t, 6));
-    match t.pick(16) {
+    match t.pick(22) {
         0 => format!("#[validate(length(min = {}, message = {}))]", t.pick(300), msg),
         1 => format!("#[validate(range(min = -{}.5e{}, max = {}, message = {}))]", t.pick(9), t.pick(30), u64::MAX, msg),
         2 => format!("#[validate(email(message = {}))]", msg),
@@ -80,7 +80,15 @@ fn validate_attr(t: &mut Tape) -> String {
         12 => format!("#[validate(message = {})]", msg),
         13 => format!("#[validate(range(min = {}u8, max = 0x{:x}, exclusive_min = 1.0))]", t.pick(200), t.pick(5000)),
         14 => format!("#[validate(length(min = 1, message = r#\"raw {} \"quoted\" text\"#))]", random_text(t, 3).replace('"', "").replace('#', "")),
-        _ => format!("#[validate(length(min=1),email,url,range(max=2),length(max=3,message={}))]", msg),
+        15 => format!("#[validate(length(min=1),email,url,range(max=2),length(max=3,message={}))]", msg),
+        // payloads syn's nested-meta walker rejects (the token-string fallback of the tool reads them):
+        // a missing comma, a char literal or a macro call as message, a literal where a path belongs
+        16 => format!("#[validate(length(min = 1, max = 20, message = {}) email)]", msg),
+        17 => format!("#[validate(length(min = 1, message = '{}'))]", *t.choose(&["é", "日", "😀", "x", "ß", "\\n", "\\'"])),
+        18 => format!("#[validate(range(min = 1, max = 9, message = {}); url)]", msg),
+        19 => format!("#[validate(length(max = 3, message = {}), 5)]", msg),
+        20 => format!("#[validate(range(max = 3, message = concat!({}, \"x\")))]", msg),
+        _ => format!("#[validate(length(min = 1 max = 2 message = {}))]", msg),
     }
 }
 
@@ -231,6 +239,24 @@ pub fn exotic_file(t: &mut Tape) -> String {
     let n = t.range(1, 6);
     for _ in 0..n {
         s.push_str(&exotic_item(t));
+    }
+    // the tool only looks inside types a command (or event) reaches: one more command mentions
+    // every struct / enum / union the file defines, so that their fields and attributes are analysed
+    let mut names: Vec<String> = vec![];
+    for line in s.lines() {
+        let l = line.trim_start();
+        for kw in ["pub struct ", "pub enum ", "pub union "] {
+            if let Some(rest) = l.strip_prefix(kw) {
+                let name: String = rest.chars().take_while(|c| c.is_alphanumeric() || *c == '_' || *c == '#').collect();
+                if !name.is_empty() && !names.contains(&name) {
+                    names.push(name);
+                }
+            }
+        }
+    }
+    if !names.is_empty() && !t.chance(1, 4) {
+        let params: Vec<String> = names.iter().enumerate().map(|(i, n)| format!("p{}: {}", i, n)).collect();
+        s.push_str(&format!("#[tauri::command]\npub fn reach_all({}) {{}}\n", params.join(", ")));
     }
     s
 }
